@@ -1372,7 +1372,7 @@ def c12(chk):
             # every stream whose caller gave up must have been closed at the accepting side (no stream credit is kept)
             for tok in m.split()[1:]:
                 i, inv, ss, cs = tok.split(":", 3)
-                if cs[3:] == "abandoned" and ss[3:] in ("wait", "running", "writing"):
+                if cs[3:] == "abandoned" and ss[3:] in ("wait", "queued", "running", "writing"):
                     chk.disagree(scen[k], "stream %s abandoned; trace ends" % i, "Rpc.v: still open at the accepting side (%s)" % ss, "simnet/rpctrace-observables")
     for sc, o, res, (count, live, hsleep, _size) in zip(scen, outs, parsed, metas):
         if res is None:
